@@ -18,6 +18,18 @@ def used(name):
     USED.add(name)
 
 
+class VMap:
+    """Opaque mutable mapping (the `cache` dict of cross): contents are not interpreted; the ghost counter
+    `writes` counts stores."""
+    def __init__(self, name='map'):
+        self.name, self.writes = name, 0
+
+    def copy(self):
+        m = VMap(self.name)
+        m.writes = self.writes
+        return m
+
+
 class TypeVal:
     """Python type objects used as values (dtype=int, isinstance(x, (int, float)), kind(opt))."""
     def __init__(self, name):
@@ -173,6 +185,8 @@ def seq_concat(ex, st, a, b, node):
 
 
 def contains(ex, st, l, r, neg, node):
+    if isinstance(r, VMap):
+        return ex.fresh_bool('incache')
     raise Unsupported(f'`in` at line {node.lineno}')
 
 
@@ -266,7 +280,7 @@ def mk_mat(t):
 
 def fresh_like(ex, st, v, name):
     """A fresh value 'of the same type' (loop havoc, callee results)."""
-    if v is NONE or isinstance(v, (VFunc, VOpaque, TypeVal)):
+    if v is NONE or isinstance(v, (VFunc, VOpaque, TypeVal, VMap)):
         return v
     if isinstance(v, bool) or isinstance(v, z3.BoolRef):
         return ex.fresh_bool(name)
@@ -304,6 +318,8 @@ def havoc(ex, st, v, name, mutated):
         elif isinstance(o, VSeq):
             st.heap[v.oid] = VSeq(ex.fresh(name + '_arr', o.arr.sort()), ex.fresh_int(name + '_len'), o.wrap, o.tag)
             st.assume(st.heap[v.oid].n >= 0)
+        elif isinstance(o, VMap):
+            pass
         elif isinstance(o, VList):
             if len(o.items) == 0:
                 raise ContractMismatch(f'list {name} grows in a loop: the contract must bind it to a symbolic sequence '
@@ -375,6 +391,8 @@ def slice_parts(ex, st, sl_, n, node):
 
 def subscript(ex, st, base, sl_, node):
     b = st.deref(base)
+    if isinstance(b, VMap):
+        return ex.fresh_real('cached')
     if isinstance(b, VOpt):
         ex.oblige(st, 'safety', 'subscripted-value-not-None', z3.Not(b.isnone), node)
         b = st.deref(b.val)
@@ -533,6 +551,13 @@ def arr_index(ex, st, a, sl_, node):
 
 def store(ex, st, base, sl_, v, node, base_node):
     b = st.deref(base)
+    if isinstance(b, VOpaque):
+        used('x[...] = v on an opaque array -> stays opaque')
+        return
+    if isinstance(b, VMap):
+        ex.ev(sl_, st)
+        b.writes += 1
+        return
     if isinstance(b, VRec):
         key = ex.ev(sl_, st)
         k = key.concrete() if isinstance(key, VStr) else None
@@ -683,6 +708,11 @@ def _iter_of_value(ex, st, v, node):
         if v.tag == 'ivec' and v.t is not None:
             return Z(v.shape[0]), (lambda j, v=v: v.t[j]), False
         return Z(v.shape[0]), (lambda j: ex.fresh_real('it')), False
+    if isinstance(v, VArr) and v.ndim == 2:
+        return Z(v.shape[0]), (lambda j, v=v: VArr((v.shape[1],), None, None, v.dtype)), False
+    if isinstance(v, VOpt):
+        ex.oblige(st, 'safety', 'iterated-value-not-None', z3.Not(v.isnone), node)
+        return _iter_of_value(ex, st, v.val, node)
     if isinstance(v, Iteration):
         return v.n, v.bind, v.concrete is not None
     raise Unsupported(f'iteration over {type(v).__name__} at line {node.lineno}')
@@ -738,10 +768,24 @@ def iteration(ex, st, it, node):
 
 
 def listcomp(ex, st, e):
-    if len(e.generators) != 1 or e.generators[0].ifs:
-        raise Unsupported('list comprehension with conditions / several generators')
+    if len(e.generators) != 1:
+        raise Unsupported('list comprehension with several generators')
     g = e.generators[0]
     it = iteration(ex, st, g.iter, e)
+    if g.ifs:
+        # [x for x in rows if cond(x)]: an order-preserving sub-sequence of unknown length 0..n
+        if it.concrete is not None or not (isinstance(e.elt, ast.Name) and isinstance(g.target, ast.Name)
+                                           and e.elt.id == g.target.id) or not all(ex._pure(c) for c in g.ifs):
+            raise Unsupported('filtered list comprehension pattern')
+        used('[x for x in rows if cond(x)] -> sub-sequence with 0 <= length <= len(rows)')
+        n_new = ex.fresh_int('nsel')
+        st.assume(n_new >= 0, n_new <= it.n)
+        sample = it.bind(ex, st, z3.IntVal(0))
+        st.ghost.setdefault('filtered', []).append((it.n, n_new))
+        if isinstance(sample, VArr) and sample.ndim == 1:
+            return st.alloc(VSeq(ex.fresh('rows', z3.ArraySort(z3.IntSort(), z3.IntSort())), n_new,
+                                 lambda t, w=sample.shape[0], dt=sample.dtype: VArr((w,), None, None, dt), tag='rows'))
+        raise Unsupported('filtered list comprehension over this element type')
     saved = dict(st.vars)
     try:
         if it.concrete is not None:
@@ -764,6 +808,9 @@ def listcomp(ex, st, e):
             arr = ex.fresh('lc', z3.ArraySort(z3.IntSort(), z3.IntSort()))
             st.assume(z3.ForAll([j], z3.Implies(z3.And(j >= 0, j < it.n), arr[j] == Z(elt)), patterns=[arr[j]]))
             return st.alloc(VSeq(arr, it.n, lambda t: t, tag='int'))
+        if is_num(elt) and not is_intsort(elt):
+            arr = ex.fresh('lc', z3.ArraySort(z3.IntSort(), z3.RealSort()))
+            return st.alloc(VSeq(arr, it.n, lambda t: t, tag='real'))
         if isinstance(elt, VArr) and elt.ndim == 3:
             arr = ex.fresh('lc', T.TT)
             if elt.t is not None and elt.tag == 'core':
@@ -956,6 +1003,8 @@ def m_tuple(ex, st, args, kwargs, node):
     v = st.deref(args[0])
     if isinstance(v, (VTuple, VList)):
         return VTuple(v.items)
+    if isinstance(v, (VArr, VOpaque)):
+        return VOpaque('tuple')
     raise Unsupported('tuple() of a symbolic value')
 
 
@@ -1054,6 +1103,10 @@ def reshape(ex, st, a, shp, order, node):
             if _same(st, m_, Z(s0)) and _same(st, c_, T.mulI(Z(s1), Z(s2))):
                 t = T.foldR(a.t, Z(s1), Z(s2)) if a.tag == 'mat' and a.t is not None else None
                 return VArr((s0, s1, s2), t, 'core' if t is not None else None)
+    if a.ndim == 1 and len(shp) == 3 and all(not (isinstance(x, int) and x == -1) for x in shp):
+        size = T.mulI(T.mulI(Z(shp[0]), Z(shp[1])), Z(shp[2]))
+        ex.oblige(st, 'call-pre', 'reshape-preserves-size', Z(a.shape[0]) == size, node)
+        return VArr(tuple(shp), None, None, a.dtype)
     raise Unsupported(f'reshape pattern {a.shape} -> {shp} (order {o}) at line {node.lineno}')
 
 
@@ -1064,6 +1117,11 @@ def _same(st, a, b):
 @model('teneva._reshape', 'np.reshape')
 def m_reshape(ex, st, args, kwargs, node):
     a = st.deref(args[0])
+    if isinstance(a, VOpt):
+        ex.oblige(st, 'safety', 'reshaped-value-not-None', z3.Not(a.isnone), node)
+        a = st.deref(a.val)
+    if isinstance(a, VOpaque):
+        return VOpaque('reshape')
     order = kwargs.get('order', args[2] if len(args) > 2 else VStr('F' if ast.unparse(node.func) == 'teneva._reshape' else 'C'))
     if not isinstance(a, VArr):
         raise Unsupported('reshape of a non-array')
@@ -1086,6 +1144,13 @@ def m_array(ex, st, args, kwargs, node):
         return VArr((len(v.items),), None, None, dt or 'f')
     if isinstance(v, VSeq) and v.tag == 'int':
         return VArr((v.n,), v.arr, 'ivec', dt or 'i')
+    if isinstance(v, VSeq) and v.tag == 'real':
+        return VArr((v.n,), None, None, dt or 'f')
+    if isinstance(v, VSeq) and v.tag == 'rows':
+        row = v.get(z3.IntVal(0))
+        return VArr((v.n, row.shape[0]), None, None, dt or row.dtype)
+    if isinstance(v, VOpaque):
+        return VOpaque('array')
     raise Unsupported(f'np.array of {type(v).__name__}')
 
 
@@ -1124,3 +1189,45 @@ def m_rq(ex, st, args, kwargs, node):
     if a.t is not None and a.tag == 'mat':
         st.assume(T.mm(r, q) == a.t, T.mm(q, T.tr(q)) == T.eye(T.rows(q)))
     return VTuple([mk_mat(r), mk_mat(q)])
+
+
+@model('teneva._ones')
+def m_ones(ex, st, args, kwargs, node):
+    k = ex.need_num(st, args[0], node)
+    m = ex.need_num(st, args[1], node) if len(args) > 1 else 1
+    used('teneva._ones(k, m) -> integer matrix of ones, shape (k, m)')
+    return VArr((k, m), None, None, 'i')
+
+
+@model('np.kron')
+def m_kron(ex, st, args, kwargs, node):
+    a, b = st.deref(args[0]), st.deref(args[1])
+    if isinstance(a, VOpt) or isinstance(b, VOpt):
+        a = st.deref(a.val) if isinstance(a, VOpt) else a
+        b = st.deref(b.val) if isinstance(b, VOpt) else b
+    if isinstance(a, VOpaque) or isinstance(b, VOpaque):
+        return VOpaque('kron')
+    if not (isinstance(a, VArr) and isinstance(b, VArr) and a.ndim == 2 and b.ndim == 2):
+        raise Unsupported('np.kron pattern')
+    used('np.kron(A, B) for matrices -> shape (rows A * rows B, cols A * cols B)')
+    mul = lambda x, y: x * y if isinstance(x, int) or isinstance(y, int) else T.mulI(Z(x), Z(y))
+    t = T.kron(a.t, b.t) if (a.tag == 'mat' and b.tag == 'mat' and a.t is not None and b.t is not None) else None
+    return VArr((mul(a.shape[0], b.shape[0]), mul(a.shape[1], b.shape[1])), t, 'mat' if t is not None else None,
+                'i' if a.dtype == 'i' and b.dtype == 'i' else 'f')
+
+
+@model('np.hstack')
+def m_hstack(ex, st, args, kwargs, node):
+    parts = st.deref(args[0])
+    if not isinstance(parts, (VTuple, VList)) or len(parts.items) != 2:
+        raise Unsupported('np.hstack of other than two arrays')
+    a, b = [st.deref(x) for x in parts.items]
+    if isinstance(a, VOpaque) or isinstance(b, VOpaque):
+        return VOpaque('hstack')
+    if not (isinstance(a, VArr) and isinstance(b, VArr) and a.ndim == 2 and b.ndim == 2):
+        raise Unsupported('np.hstack pattern')
+    used('np.hstack((A, B)) for matrices -> requires equal row counts; columns add up')
+    ex.oblige(st, 'call-pre', 'hstack-rows-agree', Z(a.shape[0]) == Z(b.shape[0]), node)
+    t = T.hcat(a.t, b.t) if (a.tag == 'mat' and b.tag == 'mat' and a.t is not None and b.t is not None) else None
+    return VArr((a.shape[0], Z(a.shape[1]) + Z(b.shape[1])), t, 'mat' if t is not None else None,
+                'i' if a.dtype == 'i' and b.dtype == 'i' else 'f')
